@@ -43,7 +43,7 @@ const SELECTORS: &[&str] = &[
     "div", ".b\\", "##", ".x1",
 ];
 const STYLES: &[&str] = &["color: red", "display: block !important", "margin: 0"];
-const SCRIPTS: &[&str] = &["set, a, 1", "set, b, 2", "abort, x", "acis, y", "noop", "abort, x.y", "set, a, 2", "perm, z", "p1, z", "perm, z"];
+const SCRIPTS: &[&str] = &["set, a, 1", "set, b, 2", "abort, x", "acis, y", "noop", "abort, x.y", "set, a, 2", "perm, z", "p1, z", "perm, z", "window.open-defuser, popup", "nowoif, 1", "window.open-defuser.js, 2"];
 
 fn b64(data: &[u8]) -> String {
     const T: &[u8; 64] = b"ABCDEFGHIJKLMNOPQRSTUVWXYZabcdefghijklmnopqrstuvwxyz0123456789+/";
@@ -76,6 +76,8 @@ fn resources() -> Vec<Resource> {
         simple("set.js", &["set-constant.js"], "SET({{1}},{{2}});"),
         simple("abort.js", &["acis.js"], "ABORT[{{1}}];"),
         simple("noop.js", &[], "NOOP();"),
+        // a scriptlet whose name has a dot in it (rules name it without the .js extension)
+        simple("window.open-defuser.js", &["nowoif.js"], "WOD({{1}});"),
         simple_perm("perm.js", &[], "PERM[{{1}}];", 3),
         simple_perm("p1.js", &[], "P1[{{1}}];", 1),
     ]
